@@ -54,7 +54,7 @@ def cc(cs):
 def make_step(rnd, vd, ncomp, depth=0):
     """returns (name, estimator, is_gridder)"""
     if ncomp == 1:
-        kinds = ["trend", "spline", "knn", "reduce", "blockmean"] + (["chain"] if depth == 0 else [])
+        kinds = ["trend", "spline", "spline_fc", "knn", "reduce", "blockmean"] + (["chain"] if depth == 0 else [])
     else:
         kinds = ["vector", "reduce", "vector"] + (["chain"] if depth == 0 else [])
     k = rnd.choice(kinds)
@@ -63,6 +63,12 @@ def make_step(rnd, vd, ncomp, depth=0):
     if k == "spline":
         dm = rnd.choice([1e-3, 1e-1, 1.0])
         return "Spline(damping=%g)" % dm, vd.Spline(damping=dm, mindist=rnd.choice([0.1, 1.0])), True
+    if k == "spline_fc":
+        # forces on a coarse grid (fewer than data): a least-squares fit with real residuals even when undamped
+        dm = rnd.choice([None, 1e-2])
+        fe, fn = np.meshgrid(np.linspace(0.5, 5.5, 3), np.linspace(-2.5, 2.5, 2))
+        return ("Spline(damping=%r,force_coords=3x2 grid)" % dm,
+                vd.Spline(damping=dm, mindist=1.0, force_coords=(fe.ravel(), fn.ravel())), True)
     if k == "knn":
         kk = rnd.randint(1, 2)   # never more neighbours than points can remain after a block reduction
         return "KNeighbors(%d)" % kk, vd.KNeighbors(k=kk), True
@@ -234,6 +240,23 @@ def vector_case(rnd, vd, kind):
     ncomp = rnd.choice([2, 2, 3])
     coords, data, weights, q = make_data(rnd, ncomp, True)
     subs = [make_step_gridder(rnd, vd, 1) for _ in range(ncomp)]
+    if rnd.random() < 0.35:
+        # fitted WITHOUT weights: every component must get weights=None (a component whose reduction takes no
+        # weights argument, np.median, fails or behaves differently if weights are invented for it)
+        subs[0] = ("Chain[BlockReduce(median,1.5),Trend(1)]",
+                   vd.Chain([("r", vd.BlockReduce(np.median, spacing=1.5)), ("t", vd.Trend(1))]), True)
+        names = [s[0] for s in subs]
+        with warnings.catch_warnings():
+            warnings.simplefilter("ignore")
+            vec = vd.Vector([clone(s[1]) for s in subs]).fit(coords, data)
+            pv = comps(vec.predict(q))
+            sep = [comps(clone(s[1]).fit(coords, data[i], None).predict(q))[0] for i, s in enumerate(subs)]
+            keep = rnd.randrange(ncomp)
+            d2 = tuple(d if i == keep else d[::-1] * 2.0 for i, d in enumerate(data))
+            pv2 = comps(vd.Vector([clone(s[1]) for s in subs]).fit(coords, d2).predict(q))
+        term = "c06_vector %s %s %s %s" % (cc(pv), cc(sep), cc(pv2), cN(keep))
+        return Case({"components": names, "n_points": len(coords[0]), "kept_component": keep, "weights": None}, {"vector_prediction": pv}, term,
+                    "# Vector(%s) fitted without weights; see harness/c06.py vector_case" % names, kind + "-no-weights")
     names = [s[0] for s in subs]
     if all(not nm.startswith("Chain") for nm in names) and rnd.random() < 0.6:
         # exact zero weights, at DIFFERENT points in each component (a zero weight in one component must not
